@@ -35,6 +35,23 @@ def make_decider(valuation, classify, on_unknown=None):
                                            depth + 1))
           if v is not None:
             return v
+      # `<local> is None` / `is not None`: decided by what the local was last
+      # bound to on this path (None, or an object just constructed)
+      if isinstance(expr, ast.Compare) and len(expr.ops) == 1 and isinstance(
+          expr.ops[0], (ast.Is, ast.IsNot)) and isinstance(
+              expr.left, ast.Name) and isinstance(
+                  expr.comparators[0], ast.Constant) and \
+          expr.comparators[0].value is None and depth < 4:
+        res = cfgm.path_resolve(cfgm.Path(steps, None), expr.left)
+        is_none = None
+        if isinstance(res, ast.Constant):
+          is_none = res.value is None
+        elif isinstance(res, (ast.Tuple, ast.List, ast.Dict, ast.Set)):
+          is_none = False
+        elif isinstance(res, ast.Call) and (last_attr(res) or 'x')[:1].isupper():
+          is_none = False  # a constructor call
+        if is_none is not None:
+          return is_none if isinstance(expr.ops[0], ast.Is) else not is_none
       k = classify(expr, steps)
       if k is None:
         if on_unknown is not None:
